@@ -71,7 +71,8 @@ func (o *Object) Sort() {
 func (o *Object) MarshalJSON() ([]byte, error) {
 	var buf bytes.Buffer
 	buf.WriteByte('{')
-	for i, v := range o.Attributes {
+	written := 0
+	for _, v := range o.Attributes {
 		a, err := v.MarshalJSON()
 		if err != nil {
 			return nil, err
@@ -79,10 +80,11 @@ func (o *Object) MarshalJSON() ([]byte, error) {
 		if len(a) == 0 { // as per spec, skip empty attributes
 			continue
 		}
-		if i > 0 {
+		if written > 0 {
 			buf.WriteByte(',')
 		}
 		buf.Write(a)
+		written++
 	}
 	buf.WriteByte('}')
 	return buf.Bytes(), nil
